@@ -49,6 +49,13 @@ func genUciDet(o *Out, r *rand.Rand, thorough bool) {
 		n = 2500
 	}
 	o.do(ztableLine(0))
+	// the commands reach the driver through engine.ReadStdinLines: long `position` lines included, one line each
+	{
+		line := fmt.Sprintf("published stdinlines %d %d", r.Int63n(1<<40), 24)
+		o.do(line)
+		o.Count("stdin-lines-intact")
+		o.Nontrivial(line)
+	}
 	starts := []string{fen.Initial, fen.Initial, fen.Initial}
 	starts = append(starts, gameStarts...)
 	starts = append(starts, mateStarts...)
@@ -540,6 +547,15 @@ func raceScripts(r *rand.Rand, n int) []raceScript {
 			"> setoption name Noise value 30", "> go", "wait-bestmove 9000", "quiet 100", "> setoption name Depth value -1", "> setoption name Depth", "> setoption", "sync", "alive"}, "options"},
 		raceScript{"sargon", []string{"> setoption name OwnBook value false", "> position startpos", "> go depth 1", "wait-bestmove 20000", "quiet 100",
 			"> setoption name OwnBook value true", "> go", "wait-bestmove 20000", "quiet 100", "> ponderhit", "> register later", "sync", "alive"}, "options"})
+	// every value of the declared range of the noise option, the smallest ones included, is a setting the engine must play with
+	// (the option takes effect with the next new game)
+	{
+		var steps []string
+		for _, v := range []int{1, 2, 3, 1 + r.Intn(9), 10000, 0} {
+			steps = append(steps, fmt.Sprintf("> setoption name Noise value %d", v), "> ucinewgame", "> position startpos", "> go depth 2", "wait-bestmove 20000", "quiet 100", "sync")
+		}
+		ret = append(ret, raceScript{[]string{"plain", "morlock"}[r.Intn(2)], append(steps, "alive"), "options"})
+	}
 	// options an engine never advertised (a book switch sent to an engine without a book, unknown names) must be survived
 	for _, kind := range []string{"plain", "morlock", "turochamp"} {
 		ret = append(ret, raceScript{kind, []string{"> setoption name OwnBook value true", "sync", "> position startpos", "> go depth 1", "wait-bestmove 20000", "quiet 100",
